@@ -41,6 +41,7 @@ ASSUMPTIONS = [
     "cross-file type references follow the real layout (deeper directories refer to shallower ones and their own)",
     "a crash may lose or truncate any file written by the crashed run (nothing is fsynced)",
     "file comparison is by relative path and SHA-256 of the bytes",
+    "type names equal to a name the generated modules themselves import or to a public class of the hand-written library (specgen.FORBIDDEN_TYPE_NAMES: Optional, Iterable, Union, EoWriter, SerializationError, Packet, ...) are not generated: identifiers colliding with generated code are degenerate per the properties; observed outside the explored domain: a struct named Optional next to an optional field makes the package unimportable",
 ]
 COMPONENTS = {
     "real": ["protocol_code_generator (whole package)", "protocol.py clean/generate entry point", "Python import system", "real tmpfs filesystem"],
